@@ -334,10 +334,20 @@ class Run:
             self.transport = self.mqtt.transport
         else:
             self.transport = FakeTransport()
-        self.gateway = Gateway(self.transport, Config(metric=init.get("metric", True)))
+        if init.get("persist"):
+            # the gateway has a persistence file holding exactly the initial registry ("restored from persistence" for
+            # real: every `cycle` event loads it on entering and saves on leaving)
+            import tempfile
+            self.persist_dir = tempfile.mkdtemp(prefix="verif-gwpersist-")
+            ppath = os.path.join(self.persist_dir, "registry.json")
+            self.gateway = Gateway(self.transport, Config(metric=init.get("metric", True), persistence_file=ppath))
+        else:
+            self.gateway = Gateway(self.transport, Config(metric=init.get("metric", True)))
         if self.stream is None and self.mqtt is None:
             self.transport.gateway = self.gateway
         build_registry(self.gateway, init.get("nodes", []))
+        if init.get("persist"):
+            self.loop.run_until_complete(asyncio.wait_for(self.gateway.persistence.save(), 20))
         if init.get("ver", "none") != "none":
             self.gateway.protocol_version = init["ver"]
         self.gen = None
@@ -360,6 +370,8 @@ class Run:
             self.loop.close()
             if hasattr(self, "snap_dir"):
                 shutil.rmtree(self.snap_dir, ignore_errors=True)
+            if hasattr(self, "persist_dir"):
+                shutil.rmtree(self.persist_dir, ignore_errors=True)
 
     # -- one step ------------------------------------------------------------------
     def _await(self, coro):
@@ -468,7 +480,16 @@ class Run:
             if self.gen is not None:
                 self._await(self.gen.aclose())
                 self.gen = None
-            val, err = self._await(cycle())
+            if hasattr(self, "persist_dir"):
+                # real file operations run in aiofiles' thread pool: wait for them in wall-clock time
+                try:
+                    val, err = self.loop.run_until_complete(asyncio.wait_for(cycle(), 30)), None
+                except (asyncio.TimeoutError, TimeoutError):
+                    val, err = None, "blocked"
+                except BaseException as exc:  # noqa: BLE001
+                    val, err = None, exc
+            else:
+                val, err = self._await(cycle())
             out = self._outcome(val, err, yielded=False)
         elif kind == "sibling":
             # a second Gateway object in the same process (another serial port, another broker) learns a version
